@@ -62,14 +62,23 @@ CFG = dict(
     ocaml="c04",
     casesv=c04_casesv,
     sig=c04_sig,
-    coq_sample={"quick": 40, "thorough": 150},
-    rule=("one evaluation = one request served by the real Mux (plus one per table rejected by Handle); exhaustive: every one-route table "
-          "over patterns of <=3 segments from {a,b,:x,:y,*,empty} x {GET,POST,*} against every path of <=3 (thorough: 4) segments over "
-          "{a,b,c,empty,':x','*'} with and without leading slash x methods {GET,POST,PUT,'',BOGUS}; every ordered two-route table over "
+    coq_sample={"quick": 20, "thorough": 100},
+    rule=("one evaluation = one request served by the real Mux (plus one per table rejected by Handle). Exhaustive, quick tier: (1a) every "
+          "one-route table over patterns of <=3 segments from {a,b,:x,:y,*,empty} x {GET,HEAD,POST,DELETE,*} against every path of <=3 "
+          "segments over {a,b,c,empty,':x','*'} with leading slash and of <=2 segments without x {GET,HEAD,POST,DELETE,PUT,'',BOGUS}; (1b) "
+          "every one-route table over patterns of <=2 segments from {a,:x,:X,*,empty,*x,**,a*,:,a:b,get,:param,:any,x,X} x the same "
+          "methods against every path of <=2 segments over {a,x,empty,:x,*,*x,get,a:b,a*}; (2) every ORDERED two-route table over "
           "patterns of <=2 segments from {a,:x,:y,*,empty} x {GET,POST,*} against every path of <=3 segments over {a,b,empty,':x'} x "
-          "{GET,PUT,''} (thorough: patterns over {a,b,:x,:y,*,empty}, paths over {a,b,c,empty,':x','*'}, all five methods); three-route tables over {a,:x,*,empty}<=2 x {GET,*} (quick: 1/40 sample, "
-          "thorough: all); fixed tables with '', '*', no leading slash, '//' and all ten methods; seeded random tables of 1-6 routes "
-          "and requests over arbitrary bytes. distinct_nontrivial = distinct case lines (table, batch of <=200 requests)"),
+          "{GET,HEAD,PUT,''}; (3) a 1/40 sample of ordered three-route tables over {a,:x,*,empty}<=2 x {GET,*}. Thorough tier: (1a) with "
+          "paths of <=4 segments, (2) with patterns over {a,b,:x,:y,*,empty} and paths over {a,b,c,empty,':x','*'} x all seven methods, "
+          "(3) all ordered triples, and EVERY SET of three different routes over patterns of <=2 non-empty segments from {a,b,:x,:y,*} x "
+          "{GET,*} (registered in one order) against every path of <=4 segments over {a,b,empty} x {GET,PUT} - i.e. the quantifier's 'up to "
+          "3 routes / up to 4 segments' is exhaustive for THIS alphabet, not for three-route tables in every registration order. "
+          "Fixed tables: '', '*', no leading slash, '//', all ten methods, names differing only in case or by a suffix (/:id/:ID ...), "
+          "segments that only look special (*x, **, a:b, get, :param). Seeded random tables of 1-6 routes and requests over arbitrary bytes. "
+          "Every handler looks up, for every :name of the table, the name, its upper/lower-case forms, an extension and a prefix, plus "
+          "X, xx, Id, ID, id2, zz, and RouteParamAny; P.K / P.V are not read directly. distinct_nontrivial = distinct case lines (table, "
+          "batch of <=200 requests)"),
     trusted_base=[HARNESS_TB, EXTRACT_TB,
                   "Lib/RouteSpec.v (segments, pattern, table_ok, match_spec) is the reading of the documented precedence; it is "
                   "evaluated on every observed request, and proved equal to the trie model for all inputs",
